@@ -165,7 +165,7 @@ def parse_diff(text):
 
 
 # ---------------------------------------------------------------- one request
-def stmt_range(src, line, outer=False, col=0):
+def stmt_range(src, line, outer=False, col=0, with_prefix=True):
     """Lines of the smallest simple/compound statement covering (line, col) (parso, not jedi).  With outer=True:
     the enclosing top-level statement, and -- because a position in the whitespace between two statements
     belongs to the prefix of the NEXT one while parso reports the previous leaf -- the union with the
@@ -184,7 +184,9 @@ def stmt_range(src, line, outer=False, col=0):
             while n.parent is not None and n.parent.type != 'file_input':
                 n = n.parent
         first = n.get_first_leaf()
-        start = first.start_pos[0] - first.prefix.count('\n')      # comments / blank lines before it travel with it
+        # extract_*: comments / blank lines before the statement travel with it.  inline: the definition statement
+        # disappears, the comments and blank lines in front of it are NOT part of it and must stay
+        start = first.start_pos[0] - (first.prefix.count('\n') if with_prefix else 0)
         return start, n.end_pos[0]
     a, b = rng(leaf)
     if outer and leaf is not None:
@@ -316,7 +318,8 @@ def do_request(arg):
         if p == path:
             # extract_* normalise the selection to whole nodes: everything inside the enclosing top-level
             # statement may move; text outside it must stay
-            a, b = stmt_range(orig, line, outer=kind.startswith('extract')) if 1 <= line <= len(ol) else (line, line)
+            a, b = stmt_range(orig, line, outer=kind.startswith('extract'), with_prefix=kind != 'inline') \
+                if 1 <= line <= len(ol) else (line, line)
             if until and kind.startswith('extract') and 1 <= until[0] <= len(ol):
                 b = max(b, stmt_range(orig, until[0], outer=True, col=until[1])[1])
             if kind == 'inline':
@@ -328,7 +331,7 @@ def do_request(arg):
         if kind == 'inline':
             # the definition statement disappears: its lines are touched
             for rl in list(touched):
-                a, b = stmt_range(orig, rl)
+                a, b = stmt_range(orig, rl, with_prefix=False)
                 touched |= set(range(a, b + 1))
         hunks = []
         if parsed is not None:
